@@ -92,7 +92,20 @@ def extract_method_body(func, name, params, returns):
     return src, "", fd.lineno
 
 
-def extract_assignments(func, name, params, returns, targets):
+def _stored_names(st):
+    stored = set()
+    for node in ast.walk(st):
+        if isinstance(node, (ast.Assign, ast.AugAssign)):
+            for t in (node.targets if isinstance(node, ast.Assign) else [node.target]):
+                base = t
+                while isinstance(base, ast.Subscript):
+                    base = base.value
+                if isinstance(base, ast.Name):
+                    stored.add(base.id)
+    return stored
+
+
+def extract_assignments(func, name, params, returns, targets, records=()):
     """program slice: the top-level assignment statements of the function whose targets are among `targets` (in source order), as a stand-alone function.
     Everything else of the function is dropped; the values the slice reads from the rest enter as parameters."""
     f = getattr(func, "py_func", func)
@@ -114,6 +127,11 @@ def extract_assignments(func, name, params, returns, targets):
             if stored & set(targets):
                 picked.append(st)
             continue
+        if isinstance(st, ast.If):
+            # a top-level conditional belongs to the slice if one of its branches stores into one of the targets
+            if _stored_names(st) & set(targets):
+                picked.append(st)
+            continue
         if isinstance(st, (ast.Assign, ast.AugAssign)):
             tg = st.targets if isinstance(st, ast.Assign) else [st.target]
             names = set()
@@ -127,6 +145,8 @@ def extract_assignments(func, name, params, returns, targets):
     if not picked:
         raise LookupError("no top-level assignment to %s in %s" % (sorted(targets), fd.name))
     picked = [_SelfToNames().visit(st) for st in picked]
+    if records:
+        picked = [_RecordToNames(records).visit(st) for st in picked]
     for st in picked:
         ast.fix_missing_locations(st)
     body = "\n".join(textwrap.indent(ast.unparse(st), "    ") for st in picked)
